@@ -40,12 +40,12 @@ CLAIMED = {
 CLAIMED.update({
  "C03": (AI + "; one step of every stack walker / wrapper on a one-entry stack; constructor start lists; tree-ness of the links under every structural mutator",
          "Per step: a walker pushes exactly [right child, left child] of the popped node and yields the projection of that node iff it holds a value (prefix and value of the same node), returns None on an empty stack; "
-         "every whole-map/set/view constructor starts on the right table with [root]/[view node]; clones are derived; the structural mutators never link a slot twice or leave a freed slot linked. The induction over the traversal is not mechanised.",
+         "every whole-map/set/view constructor starts on the right table with [root]/[view node]; clones are derived or copy table and stack; no iterator overrides a provided method (fold, nth, count, ...) other than by delegating to next / an inner iterator; the structural mutators never link a slot twice or leave a freed slot linked. The induction over the traversal is not mechanised.",
          TB + "; assumes C15/C16 for 'exactly once'", "DESIGN.md §6 C03"),
  "C05": (AI + "; every arm of Union/UnionMut::next and both constructors compared with the specification table (Appendix B) over the facts the path examined",
-         "Per arm and abstract input class: entries pushed and their order (pair classification, one-sided descent keeping the sibling on the correct end, right before left), item emitted (tag from value presence, values and key of the paired nodes), initial stack for any two view positions; decisions without an examined fact are reported. Induction over the traversal not mechanised.",
+         "Per arm and abstract input class: entries pushed and their order (pair classification, one-sided descent keeping the sibling on the correct end, right before left), item emitted (tag from value presence, values and key of the paired nodes), initial stack for any two view positions; decisions without an examined fact are reported; independently of the tables, every node still to be visited is in exactly one pushed entry; no provided iterator method is overridden other than by delegation. Induction over the traversal not mechanised.",
          TB + "; assumes C15, C17", "DESIGN.md §6 C05, Appendix B"),
- "C06": (AI + "; arms Both/FirstA/FirstB of Intersection(Mut)::next and constructors against the specification table",
+ "C06": (AI + "; arms Both/FirstL/FirstR (role names) of Intersection(Mut)::next and constructors against the specification table",
          "Per arm: prune of non-overlapping pairs, one-sided descent to the child on the other operand's side, emission only in Both iff both valued with both values; initial stack for any two view positions (disjoint sub-views start empty).",
          TB + "; assumes C15, C17", "DESIGN.md §6 C06, Appendix B"),
  "C07": (AI + "; arms of Difference, DifferenceMut, CoveringDifference, CoveringDifferenceMut and constructors against the specification table",
@@ -66,11 +66,11 @@ CLAIMED.update({
  "C14": ("compile-fail witnesses with compiling twins (rustc, against the .rmeta of the current tree) + inventory / variance / unsafe-impl queries over the type-checked program + single-visit check on the interpreted *_mut steps",
          "43 aliasing / thread-safety client programs are rejected with the expected error code on the marked line (twins compile), 4 intended patterns compile; every type holding &Table from which get_mut is reachable has its Send and Clone witnesses, is built only from exclusive receivers, is invariant in its value types; the only unsafe auto-trait impls are Table's with P,T: Send/Sync; get_mut is applied only to the popped entry's own index per table.",
          "trusted: rustc borrow checker / auto traits; assumes C15 for single visit; the schedule clause (concurrent = sequential) and aliasing-model UB are not decided", "DESIGN.md §6 C14, Appendix C"),
- "C17": ("site rules over the typed tree of prefix.rs / to_right: guarded shifts, arithmetic and narrowing casts justified by operand types, shape of the eq / zero / contains defaults",
-         "ONLY the boundary-safety clause ('no operation panics or overflows for bit indices 0..=255 and lengths 0..=width') is decided. NOT decided: reflexivity / antisymmetry / transitivity of contains, the longest_common_prefix equations, is_bit_set = i-th bit, from_repr_len masking, agreement of the per-type overrides with the generic definitions — bit-vector identities out of reach for this technique (seeded change C17-a is consequently not detected).",
+ "C17": ("site rules over the typed tree of prefix.rs / to_right (guarded shifts, arithmetic and narrowing casts justified by operand types, shape of the eq / zero / contains defaults) + abstract interpretation of longest_common_prefix / from_repr_len with foreign arithmetic as uninterpreted functions and min / comparisons as ordering facts",
+         "Decided: the boundary-safety clause ('no operation panics or overflows for bit indices 0..=255 and lengths 0..=width'); the LENGTH clause of longest_common_prefix for the generic definition and every override (on every path the constructed length is <= both lengths, <= leading_zeros(xor of the two representations) and equal to one of them, by order closure of the path's own facts); from_repr_len passes its length (tuple type: also its representation) through. NOT decided: reflexivity / antisymmetry / transitivity of contains, the representation part, symmetry and coverage of longest_common_prefix, is_bit_set = i-th bit, from_repr_len masking, agreement of the per-type overrides with the generic definitions — bit-vector identities out of reach for this technique (seeded change C17-r4a is consequently not detected).",
          "assumes shipped representations <= 128 bits and foreign constructors accepting len <= width", "DESIGN.md §6 C17, §9"),
  "C18": ("who-may-call query on Prefix::repr/from_repr_len and P-bounds + " + AI + " for prefix writes and reported prefixes",
-         "Trie code never reads a key's raw representation; the stored prefix of an existing node is written exactly by the inserting/replacing calls (always, with the caller's prefix) and by nothing else; observers, Entry::key and every set-operation item report the stored prefix of a node that holds the reported value.",
+         "Trie code never reads a key's raw representation; the stored prefix of an existing node is written exactly by the inserting/replacing calls (always, with the caller's prefix) and by nothing else; a node created for a new key (fresh or recycled slot) holds the caller's representation; observers, Entry::key and every set-operation item report the stored prefix of a node that holds the reported value.",
          TB + "; assumes C17 (mask/eq/contains ignore host bits); 'most recent call' is the per-step fact", "DESIGN.md §6 C18"),
  "C19": (AI + " with sequence-combinator models (Iterator::eq / zip / all), clone and serde models",
          "eq of maps and sets is Iterator::eq over both whole walkers (or count ∧ zipped element-wise own equality); Clone derived / clone_from copies table, free list and counter; Table::clone copies the node vector; from_iter inserts every item into a fresh collection; Serialize collects the whole collection; Deserialize goes through from_iter.",
